@@ -9,9 +9,10 @@
 //!   * a second serialisation of the first `Document` value,
 //!   * 2 serialisations in 2 fresh child processes (`c20 --ser <cfg> <program>`).
 //! IMPL answer: `distinct=1 runs=6` or
-//!   `distinct=<k> runs=6 first=<offset> where=<body|xrefdict> same=<0|1> a=<hex ctx> b=<hex ctx>`
+//!   `distinct=<k> runs=6 first=<offset> where=<body|xrefdict> same=<0|1> fresh=<0|1> a=<hex ctx> b=<hex ctx>`
 //! (`where=xrefdict`: the first differing byte lies in the cross-reference stream object of a
-//! `use_xref_streams` file; `same=0`: re-writing the same Document value differs from its first write).
+//! `use_xref_streams` file; `same=0`: re-writing the same Document value differs from its first write; `fresh=1`: the five
+//! serialisations of freshly built documents agree with each other).
 #[path = "c03/author.rs"]
 mod author;
 
@@ -91,6 +92,8 @@ fn run(req: &str) -> String {
         }
     }
     let runs = outs.len();
+    // fresh=1: the five serialisations of FRESHLY built documents (all but the re-write, index 3) agree
+    let fresh = outs.iter().enumerate().all(|(i, o)| i == 3 || *o == outs[0]);
     let mut uniq: Vec<&Vec<u8>> = vec![];
     for o in &outs {
         if !uniq.iter().any(|u| *u == o) {
@@ -119,12 +122,13 @@ fn run(req: &str) -> String {
     };
     let ctx = |v: &Vec<u8>| hex(&v[off.saturating_sub(8)..(off + 12).min(v.len())]);
     format!(
-        "distinct={} runs={} first={} where={} same={} a={} b={}",
+        "distinct={} runs={} first={} where={} same={} fresh={} a={} b={}",
         uniq.len(),
         runs,
         off,
         wh,
         if same { 1 } else { 0 },
+        if fresh { 1 } else { 0 },
         ctx(a),
         ctx(b)
     )
@@ -140,7 +144,17 @@ fn gen(rng: &mut Rng, tier: Tier) -> Vec<Case> {
     };
     for d in 0..ndocs {
         let o = GenOpts { max_pages: if d % 8 == 0 { 8 } else { 3 }, max_ops: if d % 5 == 0 { 70 } else { 30 }, rich: true };
-        let prog = gen_program(rng, &o);
+        let mut prog = gen_program(rng, &o);
+        // every 6th document: checkbox widget annotations with two inline appearance streams
+        // (`forms::create_checkbox_widget`) — see C20-F2
+        let ap = d % 6 == 5;
+        if ap {
+            let (first, rest) = match prog.split_once('|') {
+                Some((a, b)) => (a.to_string(), format!("|{}", b)),
+                None => (prog.clone(), String::new()),
+            };
+            prog = format!("{};F,x,chkA,10,10,30,30;F,x,chkB,40,10,60,30;F,x,chkC,70,10,90,30{}", first, rest);
+        }
         let nimg = prog.matches(";I,").count();
         let nfld = prog.matches(";F,").count();
         let nann = prog.matches(";A,").count();
@@ -171,8 +185,9 @@ fn gen(rng: &mut Rng, tier: Tier) -> Vec<Case> {
             cases.push(Case::new(
                 format!("det {} {}", cfg, prog),
                 format!(
-                    "det cfg-{} img{} fld{} ann{} font{} {}",
+                    "det cfg-{} {}img{} fld{} ann{} font{} {}",
                     cfg.split(':').next().unwrap(),
+                    if ap { "apstreams " } else { "" },
                     nimg.min(3),
                     nfld.min(3),
                     nann.min(3),
